@@ -204,14 +204,25 @@ def prove(prop_id, theorems):
 
 
 def build_driver():
+    """Separate Extraction writes one <Module>.ml/.mli per Coq file next to coq/Makefile; they are
+    copied with the hand-written drv_*.ml into .cache/driver and compiled in dependency order."""
+    stamp_ex = os.path.join(COQ, "extract", "Extract.vo")
     rc, out, dt = coq_make(["extract/Extract.vo"])
     if rc != 0:
         raise Broken("coq:extract/Extract.vo", out[-4000:])
+    gen = sorted(f for f in os.listdir(COQ) if f.endswith((".ml", ".mli")))
+    if not gen:
+        # generated files were cleaned while Extract.vo is up to date: force re-extraction
+        os.remove(stamp_ex)
+        rc, out, dt = coq_make(["extract/Extract.vo"])
+        if rc != 0:
+            raise Broken("coq:extract/Extract.vo", out[-4000:])
+        gen = sorted(f for f in os.listdir(COQ) if f.endswith((".ml", ".mli")))
     os.makedirs(DRIVER_DIR, exist_ok=True)
     ex = os.path.join(COQ, "extract")
     suites = sorted(f for f in os.listdir(ex) if f.startswith("drv_") and f.endswith(".ml") and f != "drv_common.ml")
-    order = ["model.mli", "model.ml", "drv_common.ml"] + suites + ["driver.ml"]
-    srcs = [os.path.join(ex, f) for f in order]
+    hand = ["drv_common.ml"] + suites + ["driver.ml"]
+    srcs = [os.path.join(COQ, f) for f in gen] + [os.path.join(ex, f) for f in hand]
     h = hashlib.sha256(b"".join(open(f, "rb").read() for f in srcs)).hexdigest()
     stamp = os.path.join(DRIVER_DIR, "stamp")
     if os.path.exists(DRIVER) and os.path.exists(stamp) and open(stamp).read() == h:
@@ -221,6 +232,10 @@ def build_driver():
             os.remove(os.path.join(DRIVER_DIR, f))
     for f in srcs:
         shutil.copy(f, DRIVER_DIR)
+    rc, out, dt = sh(["ocamlfind", "ocamldep", "-sort"] + gen, cwd=DRIVER_DIR, timeout=300)
+    if rc != 0:
+        raise Broken("extract:ocamldep", out[-2000:])
+    order = out.split() + hand
     rc, out, dt = sh(["ocamlfind", "ocamlopt", "-package", "zarith", "-linkpkg", "-w", "-a", "-inline", "100"]
                      + order + ["-o", "driver"], cwd=DRIVER_DIR, timeout=1200)
     if rc != 0:
